@@ -100,6 +100,77 @@ def make(kind):
     raise KeyError(kind)
 
 
+TYPESTRING = {'charset': 'CHARSET_RULE', 'import': 'IMPORT_RULE', 'namespace': 'NAMESPACE_RULE', 'variables': 'VARIABLES_RULE', 'media': 'MEDIA_RULE',
+              'page': 'PAGE_RULE', 'font-face': 'FONT_FACE_RULE', 'style': 'STYLE_RULE', 'comment': 'COMMENT', 'unknown': 'UNKNOWN_RULE', 'margin': 'MARGIN_RULE'}
+
+
+def list_family(kinds, anchors):
+    """'' (the empty list), every one-kind list, every pair [anchor, kind] / [kind, anchor] and every triple [anchor, kind, anchor];
+    a list is written as its kinds joined by '+'"""
+    out = ['']
+    out += list(kinds)
+    for a in anchors:
+        for k in kinds:
+            for x in (f'{a}+{k}', f'{k}+{a}', f'{a}+{k}+{a}'):
+                if x not in out:
+                    out.append(x)
+    return out
+
+
+_SHEETLIST = {}
+
+
+def _sheetlist_sheet(kinds):
+    import cssutils
+    return cssutils.CSSParser(fetcher=_nofetch).parseString(' '.join(TEXT[k] for k in kinds.split('+')))
+
+
+def sheetlist_ok(kinds):
+    """the kinds can stand in this order at the top level of a parsed sheet (so that its live cssRules is exactly this list)"""
+    hit = _SHEETLIST.get(kinds)
+    if hit is None:
+        if not kinds or 'margin' in kinds.split('+'):
+            hit = False
+        else:
+            import cssutils
+            raising = cssutils.log.raiseExceptions
+            cssutils.log.raiseExceptions = False
+            try:
+                hit = types(_sheetlist_sheet(kinds)) == [TYPESTRING[k] for k in kinds.split('+')]
+            except Exception:
+                hit = False
+            finally:
+                cssutils.log.raiseExceptions = raising
+        _SHEETLIST[kinds] = hit
+    return hit
+
+
+def make_list(form, kinds, offered, cont):
+    """the list argument: 'rulelist' a CSSRuleList of fresh rule objects, 'pylist' the same as a plain Python list, 'sheetlist' the live
+    cssRules of another parsed sheet (its rules name that other sheet)"""
+    from cssutils import css
+    if form == 'sheetlist':
+        import cssutils
+        raising = cssutils.log.raiseExceptions
+        cssutils.log.raiseExceptions = False
+        try:
+            other = _sheetlist_sheet(kinds)
+        finally:
+            cssutils.log.raiseExceptions = raising
+        for r in other.cssRules:
+            offered.append((r, cont, other))
+        return other.cssRules
+    rules = [make(k) for k in kinds.split('+')] if kinds else []
+    for r in rules:
+        offered.append((r, cont))
+    if form == 'pylist':
+        return rules
+    lst = css.CSSRuleList()
+    for r in rules:
+        list.append(lst, r)
+    return lst
+
+
 class State:
     def __init__(self, sheet, seed):
         self.sheet = sheet
@@ -155,7 +226,9 @@ def _parents(obj, role):
 
 class Model:
     """pool = 'list' (insert / ordered add / delete on the top-level list, every kind, every index), 'core' (list + encoding,
-    namespace mapping, sheet and rule text, nested insert/delete at both ends) or 'full' (everything, every index, text and object forms)"""
+    namespace mapping, sheet and rule text, nested insert/delete at both ends), 'full' (everything, every index, text and object forms)
+    or 'forms' (the remaining argument forms of the insert entry points: a CSSRuleList / a plain Python list of rule objects / the live
+    cssRules of another sheet, handed to insertRule, cssRules.extend and cssRules.append of the sheet and of the nested lists)"""
 
     def __init__(self, pool):
         self.pool = pool
@@ -209,6 +282,8 @@ class Model:
     def ops(self, st):
         if self.pool == 'full':
             return self.ops_full(st)
+        if self.pool in ('forms', 'forms-core'):
+            return self.ops_forms(st)
         s = st.sheet
         n = len(s.cssRules)
         out = []
@@ -286,9 +361,88 @@ class Model:
                         out.append(('n_text', ci, j, v))
         return out
 
+    def ops_forms(self, st):
+        """every list-valued argument form of the insert entry points (insertRule(list, index), cssRules.extend(list), cssRules.append(list)
+        and cssRules.append(rule)) on the sheet and on the first @media / first @page: the empty list, every one-kind list, every two-kind list
+        that pairs a kind with an anchor kind (a kind that is allowed in the target) in both orders, and anchor-kind-anchor triples; as a
+        CSSRuleList, as a plain Python list and as the live cssRules of another parsed sheet; plus the deletes that empty the lists again"""
+        s = st.sheet
+        n = len(s.cssRules)
+        out = []
+        core = self.pool == 'forms-core'   # nested lists only: CSSRuleList of one kind or [anchor, kind], at index 0 and through extend; append(rule); deletes
+        if not core:
+            for kinds in list_family(KINDS, ('style', 'import')):
+                parts = kinds.split('+')
+                out.append(('l_ins', 'rulelist', kinds, 0))
+                out.append(('l_ext', 'rulelist', kinds))
+                if len(parts) == 1 or len(parts) == 2 and parts[1] in ('style', 'import'):
+                    out.append(('l_ins', 'rulelist', kinds, n))
+                if len(parts) == 1 or len(parts) == 2 and parts[0] in ('style', 'import'):
+                    out.append(('l_app', 'rulelist', kinds))
+                    out.append(('l_ext', 'pylist', kinds))
+                if sheetlist_ok(kinds):
+                    out.append(('l_ext', 'sheetlist', kinds))
+            out.append(('l_ins', 'rulelist', 'style', n + 1))
+            for k in KINDS:
+                out.append(('append', k))
+            for i in range(n):
+                out.append(('del', i))
+        done = set()
+        for ci, r in enumerate(s.cssRules):
+            if r.typeString in ('MEDIA_RULE', 'PAGE_RULE') and r.typeString not in done:
+                done.add(r.typeString)
+                m = len(r.cssRules)
+                anchor = 'style' if r.typeString == 'MEDIA_RULE' else 'margin'
+                for kinds in list_family(NESTED_KINDS, (anchor,)):
+                    parts = kinds.split('+')
+                    if core:
+                        if len(parts) == 1 or len(parts) == 2 and parts[0] == anchor:
+                            out.append(('n_l_ins', ci, 'rulelist', kinds, 0))
+                            out.append(('n_l_ext', ci, 'rulelist', kinds))
+                        continue
+                    out.append(('n_l_ins', ci, 'rulelist', kinds, 0))
+                    out.append(('n_l_ext', ci, 'rulelist', kinds))
+                    if len(parts) == 1 or len(parts) == 2 and parts[1] == anchor:
+                        out.append(('n_l_ins', ci, 'rulelist', kinds, m))
+                    if len(parts) == 1 or len(parts) == 2 and parts[0] == anchor:
+                        out.append(('n_l_app', ci, 'rulelist', kinds))
+                        out.append(('n_l_ext', ci, 'pylist', kinds))
+                    if sheetlist_ok(kinds):
+                        out.append(('n_l_ext', ci, 'sheetlist', kinds))
+                if not core:
+                    out.append(('n_l_ins', ci, 'rulelist', anchor, m + 1))
+                for k in NESTED_KINDS:
+                    out.append(('n_append', ci, k))
+                for j in range(m):
+                    out.append(('n_del', ci, j))
+        return out
+
     def run(self, st, op, offered):
         s = st.sheet
         k = op[0]
+        if k in ('l_ins', 'l_ext', 'l_app'):
+            arg = make_list(op[1], op[2], offered, None)
+            if k == 'l_ins':
+                return s.insertRule(arg, op[3])
+            if k == 'l_ext':
+                return s.cssRules.extend(arg)
+            return s.cssRules.append(arg)
+        if k == 'append':
+            r = make(op[1])
+            offered.append((r, None))
+            return s.cssRules.append(r)
+        if k in ('n_l_ins', 'n_l_ext', 'n_l_app', 'n_append'):
+            c = s.cssRules[op[1]]
+            if k == 'n_append':
+                r = make(op[2])
+                offered.append((r, c))
+                return c.cssRules.append(r)
+            arg = make_list(op[2], op[3], offered, c)
+            if k == 'n_l_ins':
+                return c.insertRule(arg, op[4])
+            if k == 'n_l_ext':
+                return c.cssRules.extend(arg)
+            return c.cssRules.append(arg)
         if k == 'ins':
             r = make(op[1])
             offered.append((r, None))
@@ -438,10 +592,15 @@ class Model:
             got = _parents(obj, role)
             if any(x is not None for x in got):
                 fail(f'a removed {ROLE[role]} names no parent', f'{path} ({obj!r}) was removed from a container that is still in the sheet and names {got!r}', breaks=False)
-        for obj, cont in offered:
+        for obj, cont, *origin in offered:
             if id(obj) in alive:
                 continue
-            if obj.parentStyleSheet is not None or obj.parentRule is not None:
+            if origin:
+                # a rule out of another sheet's list keeps naming that sheet; it must not name this sheet / this container
+                names = obj.parentStyleSheet is s or (obj.parentRule is not None and (obj.parentRule is cont or any(obj.parentRule is o for o, _, _, _ in after)))
+            else:
+                names = obj.parentStyleSheet is not None or obj.parentRule is not None
+            if names:
                 fail('a rule that was offered but not inserted names no parent',
                      f'{obj!r} is not in the list but parentStyleSheet={obj.parentStyleSheet!r} parentRule={obj.parentRule!r}', breaks=False,
                      kind=obj.typeString, nsitem=(obj.prefix, obj.namespaceURI) if obj.typeString == 'NAMESPACE_RULE' else None)
@@ -571,12 +730,23 @@ def classify(clause, op, pre, pre_ns, info):
     if clause.startswith('serialising and reparsing') and k in ('n_ins', 'n_ins_text', 'n_add') and op[2] == 'variables' \
             and 'not allowed in CSSMediaRule' in (info.get('cause') or ''):
         return 'C09-nested-insert-kinds'
+    if k in ('n_l_ins', 'n_l_ext', 'n_l_app', 'n_append'):
+        # the same two deny-lists reached through the list-valued argument forms: the offending kind is one the list holds, the container is the target
+        offered_kinds = [op[2]] if k == 'n_append' else (op[3].split('+') if op[2] != 'pylist' else [])
+        target = kinds[op[1]] if op[1] < len(kinds) else None
+        if clause == 'nested rule lists hold only the rule kinds allowed there' and info.get('container') == target \
+                and (target, info.get('kind')) in (('MEDIA_RULE', 'VARIABLES_RULE'), ('PAGE_RULE', 'VARIABLES_RULE'), ('PAGE_RULE', 'STYLE_RULE')) \
+                and {'VARIABLES_RULE': 'variables', 'STYLE_RULE': 'style'}[info['kind']] in offered_kinds:
+            return 'C09-nested-insert-kinds'
+        if clause.startswith('serialising and reparsing') and target == 'MEDIA_RULE' and 'variables' in offered_kinds \
+                and 'not allowed in CSSMediaRule' in (info.get('cause') or ''):
+            return 'C09-nested-insert-kinds'
     if clause == 'a reachable rule names its sheet as parentStyleSheet' and info.get('depth', 0) >= 2 and info.get('got_none'):
         return 'C09-deep-nested-parentstylesheet'
     return None
 
 
-MODEL = {'list': Model('list'), 'core': Model('core'), 'full': Model('full')}
+MODEL = {'list': Model('list'), 'core': Model('core'), 'full': Model('full'), 'forms': Model('forms'), 'forms-core': Model('forms-core')}
 
 
 def seeds(tier):
@@ -685,6 +855,20 @@ def known_witnesses(ctx):
 
 R, L = True, False   # raising / logging mode of cssutils.log
 SMALL = [('', R), ('/*c*/', R)]
+# seed sheets of the 'forms' pool: nested lists that are empty / hold one rule / hold several kinds (one of them a nested @media), top-level lists
+# that are empty / hold the leading kinds / hold only late kinds
+FORM_SEED_TEXTS = [
+    SEED_TEXTS[2],
+    '@media print { } @page { }',
+    '@import "x.css"; @namespace p "urn:p"; @media print { p|a { left: 0 } @media screen { b { top: 0 } } /*k*/ } @page { @top-left { left: 0 } @bottom-center { top: 0 } }',
+    SEED_TEXTS[1],
+    '',
+]
+FORMS_CORE_LABEL = ('C09 forms-core pool (CSSRuleList arguments of one kind or [anchor, kind] handed to insertRule(list, 0) and cssRules.extend(list), cssRules.append(rule), '
+                    'deleteRule on the first @media and the first @page, all kinds)')
+FORMS_LABEL = ('C09 forms pool (list-valued argument forms: insertRule(list, index) / cssRules.extend(list) / cssRules.append(list) / cssRules.append(rule) on the sheet, '
+               'the first @media and the first @page; CSSRuleList, plain list and the live cssRules of another sheet; the empty list, every one-kind list, '
+               '[anchor, kind] / [kind, anchor] pairs and [anchor, kind, anchor] triples over all kinds)')
 
 
 def sequences(ctx):
@@ -698,6 +882,8 @@ def sequences(ctx):
         histories.explore(ctx, 'bounded.c09', 'full', [(S[1], R), (S[2], R), (S[3], R), (S[1], L), (S[2], L)], 2,
                           label='C09 full pool (text and object forms, every index, sheet/rule text, encoding, namespace mapping, nested @media/@page lists), sequences <= 2',
                           samples=[{'seed': S[1], 'ops': [['ins', 'comment', 2], ['ins', 'style', 2]]}])
+        _forms(ctx, 'forms', [(t, m) for t in FORM_SEED_TEXTS for m in (R, L)], 1)
+        _forms(ctx, 'forms-core', [(S[2], R), (S[2], L)], 2)
     else:
         histories.explore(ctx, 'bounded.c09', 'list', [('', R), ('/*c*/', R), ('', L)], 4, label='C09 list pool (insert at every index / ordered add / delete, ten kinds), sequences <= 4')
         histories.explore(ctx, 'bounded.c09', 'core', [(S[0], R), (S[1], R), (S[2], R), (S[0], L)], 3, label='C09 core pool, sequences <= 3')
@@ -705,6 +891,23 @@ def sequences(ctx):
         histories.explore(ctx, 'bounded.c09', 'full', seeds(ctx.tier), 2, unmerged_depth=2,
                           label='C09 full pool (text and object forms, every index, sheet/rule text, encoding, namespace mapping, nested @media/@page lists), sequences <= 2',
                           samples=[{'seed': S[1], 'ops': [['ins', 'comment', 2], ['ins', 'style', 2]]}])
+        _forms(ctx, 'forms', [(t, m) for t in FORM_SEED_TEXTS for m in (R, L)], 1)
+        _forms(ctx, 'forms', [(S[2], R), (S[2], L), (FORM_SEED_TEXTS[2], R)], 2)
+
+
+def _forms(ctx, pool, seed_states, depth):
+    """the list-valued argument forms (pool 'forms'; 'forms-core' is its nested-list part with one-kind and [anchor, kind] CSSRuleLists only)"""
+    from bounded import histories
+    what = FORMS_LABEL if pool == 'forms' else FORMS_CORE_LABEL
+    histories.explore(ctx, 'bounded.c09', pool, seed_states, depth, label=f'{what}, sequences <= {depth} from {len(seed_states)} seed states',
+                      samples=[{'seed': SEED_TEXTS[2], 'ops': [['n_l_ext', 1, 'rulelist', 'style+font-face']]},
+                               {'seed': SEED_TEXTS[2], 'ops': [['n_del', 2, 0], ['n_l_ins', 2, 'rulelist', 'margin+media', 0]]}])
+    if pool == 'forms':
+        lists = ('list arguments of <= 3 rules (empty, one kind, [anchor, kind], [kind, anchor], [anchor, kind, anchor]; anchor = style / @import at top level, style in @media, '
+                 'margin rule in @page) as CSSRuleList, plain Python list and live cssRules of another parsed sheet; targets: the sheet, its first @media, its first @page')
+    else:
+        lists = 'CSSRuleList arguments of <= 2 rules (one kind, [anchor, kind]; anchor = style in @media, margin rule in @page); targets: the first @media and the first @page of the sheet'
+    ctx.bounded[-1]['bound'] = f'sequences of <= {depth} operations over the {pool} pool; {lists}; raising and logging mode; rule objects of fixed text per kind'
 
 
 def random_walks(ctx):
@@ -712,3 +915,4 @@ def random_walks(ctx):
         return
     from bounded import histories
     histories.walks(ctx, 'bounded.c09', 'full', seeds(ctx.tier), 320, 200, label='C09 random walks over the full pool')
+    histories.walks(ctx, 'bounded.c09', 'forms', [(t, m) for t in FORM_SEED_TEXTS[:3] for m in (R, L)], 96, 200, label='C09 random walks over the forms pool (list-valued argument forms)')
